@@ -586,7 +586,7 @@ def impl(case):
         from ..gen import c10_rxn
         if rxn_graphs(case["rsmi"]) is None:
             return ["NOGRAPH"]
-        return c10_rxn.rxn_obs(case["rsmi"], gr_ord_obs, _total_h)
+        return c10_rxn.rxn_obs(case["rsmi"], gr_ord_obs, _total_h, gr_obs)
     if k == "itsrsmi":
         from ..gen import c10_rxn
         return c10_rxn.itsrsmi_obs(to_nx(case["its"]))
@@ -668,7 +668,9 @@ def coq_case(case):
             if x is None:
                 return None
             eo = clist(["(%s, %s)" % (cN(u), cN(v)) for u, v in x[2]])
-            return "run_rxn %s %s %s" % (enc_gr(x[0]), enc_gr(x[1]), eo)
+            return ("(let r := %s in let p := %s in let eo := %s in let back := t_gr (gml_to_its (its_to_gml (its_construct r p eo) true true false)) in "
+                    "match run_rxn r p eo with L l => L (l ++ [t_gr_ord (rsmi_to_its r p eo false false); back; back]) | t => t end)"
+                    % (enc_gr(x[0]), enc_gr(x[1]), eo))
         if k == "itsrsmi":
             return "run_its_rsmi %s" % enc_gr(case["its"])
         if k == "gmlsmart":
